@@ -12,7 +12,7 @@ import sys
 
 INF = 255
 NSLOT = 4
-F1, G1, F2, V1, R1, CR1, SV1 = range(7)
+F1, G1, F2, V1, R1, CR1, SV1, CF1 = range(8)
 MK = dict(ANY=0, EQ=1, LT=2, VAL=3, NE=4, GE=5)
 TF = dict(RT=0, DEFAULT=1, N=2, LH=3, ATLEAST=4, ATMOST=5, ALLOW=6, FORBID=7)
 ACT = dict(RET=0, THROW_INT=1, THROW_STD=2, NONE=3, RETREF=4, RETCAP=5, RETSTR=6)
@@ -25,7 +25,7 @@ F_KIND, F_HANDLER, F_REPCOUNT, F_REPCULPRIT, F_REPDETAIL, F_OKREP, F_TRACE, F_CL
 F_REPORTS = F_REPCOUNT | F_REPCULPRIT | F_REPDETAIL
 F_ALL = (1 << 11) - 1
 
-FN_NAME = {F1: 'f', F2: 'f', G1: 'g', V1: 'v', R1: 'r', CR1: 'cr', SV1: 'sv'}
+FN_NAME = {F1: 'f', F2: 'f', G1: 'g', V1: 'v', R1: 'r', CR1: 'cr', SV1: 'sv', CF1: 'f'}
 
 
 class Gen:
@@ -112,6 +112,8 @@ class Gen:
                           ACT['THROW_INT']: '.THROW(cur()->ht(%d))' % K, ACT['THROW_STD']: '.THROW(cur()->hte(%d))' % K,
                           ACT['RETCAP']: '.RETURN(v_s%d)' % K, ACT['RETSTR']: '.RETURN(cur()->hstr(%d))' % K}[act]
         getter = 'pw->M_(op.obj)' if mock == MOCK['M'] else 'pw->MV_(op.obj)'
+        if fn == CF1:
+            getter = 'static_cast<const %s&>(%s)' % ('M' if mock == MOCK['M'] else 'MV', getter)   # the expectation is placed through a const reference: the const overload
         pre = 'int v_s%d = %d; ' % (K, 700 + K) if act == ACT['RETCAP'] else ''
         return '%sauto& %s = %s; return %s;' % (pre, var, getter, chain), text
 
@@ -258,6 +260,7 @@ def c01_alphabet(g, slots, objs_mv=True):
     variants.append(dict(sh=dict(fn=F1, mk1='EQ', seqar=1), lo=0, hi=INF))
     variants.append(dict(sh=dict(fn=G1, mk1='ANY', nse=1), lo=1, hi=1))
     variants.append(dict(sh=dict(fn=F1, mk1='ANY', seqar=2), lo=1, hi=2))
+    variants.append(dict(sh=dict(fn=CF1, mk1='ANY', nse=1), lo=1, hi=2))   # the const overload f(int) const: calls through a const reference only
     for slot in slots:
         for v in variants:
             A.append(g.create(slot, g.shape(**v['sh']), obj=0, k1=1, lo=v['lo'], hi=v['hi'], s1=0, wmode=v.get('wmode', (0, 0, 0))))
@@ -266,7 +269,7 @@ def c01_alphabet(g, slots, objs_mv=True):
                 A.append(g.create(slot, g.shape(mock='MV', fn=F1, mk1='ANY'), obj=2, k1=1, lo=b[0], hi=b[1]))
             A.append(g.create(slot, g.shape(mock='MV', fn=F1, mk1='ANY', seqar=1), obj=2, k1=1, lo=1, hi=1, s1=0))  # a sequence spanning two mock objects
         A.append(g.release(slot))
-    A += [g.call(0, F1, a) for a in (0, 1, 2)] + [g.call(0, G1, 1)]
+    A += [g.call(0, F1, a) for a in (0, 1, 2)] + [g.call(0, G1, 1), g.call(0, CF1, 1)]
     if objs_mv:
         A += [g.call(2, F1, 1), g.call(3, F1, 1), g.op(OP_MOVE_MOCK, obj=2, k1=3), g.op(OP_MOVE_MOCK, obj=3, k1=2), g.op(OP_DESTROY_MOCK, obj=2), g.op(OP_DESTROY_MOCK, obj=3)]
     A.append(g.op(OP_DESTROY_MOCK, obj=0))
@@ -323,7 +326,15 @@ def plans_C02(g, tier):
         for mk in ('ANY', 'EQ'):
             for b in [(1, 1), (0, INF), (0, 0)]:
                 iso_pre.append([g.create(0, g.shape(fn=F1, mk1=mk, nse=0 if b == (0, 0) else 1), obj=0, k1=1, lo=b[0], hi=b[1])] + others)
-    iso_alpha = calls + [g.call(1, F1, 1), g.call(0, G1, 1), g.call(0, F2, 1, 1), g.call(1, G1, 1), g.call(1, F2, 1, 1)] + [g.release(i) for i in range(4)]
+    # ... and the const overload of the same name and signature is a function of its own
+    for mk in ('ANY', 'EQ'):
+        for b in [(1, 1), (0, INF), (0, 0)]:
+            for bc in [(1, 2), (0, 0)]:
+                iso_pre.append([g.create(0, g.shape(fn=F1, mk1=mk, nse=0 if b == (0, 0) else 1), obj=0, k1=1, lo=b[0], hi=b[1]),
+                                g.create(1, g.shape(fn=CF1, mk1='ANY', nse=0 if bc == (0, 0) else 1), obj=0, lo=bc[0], hi=bc[1]),
+                                g.create(2, g.shape(fn=CF1, mk1='ANY', nse=1), obj=1, lo=1, hi=2),
+                                g.create(3, g.shape(fn=F2, mk1='ANY', mk2='ANY', nse=1), obj=0, lo=1, hi=2)])
+    iso_alpha = calls + [g.call(1, F1, 1), g.call(0, G1, 1), g.call(0, F2, 1, 1), g.call(1, G1, 1), g.call(1, F2, 1, 1), g.call(0, CF1, 1), g.call(1, CF1, 1)] + [g.release(i) for i in range(4)]
     # a destruction requirement inside the sequences: once the object has died the step is no longer pending and must not count as a passed-over step
     mon_pre = []
     for m1, m2, m3 in itertools.product((1, 3), (1, 2, 3), (0, 1, 3)):
